@@ -390,8 +390,9 @@ Sweep ==
        /\ nodes' = keep
        /\ H' = [n \in keep |-> H[n]] /\ armed' = [n \in keep |-> armed[n]] /\ rc' = [n \in keep |-> rc[n]]
        /\ E' = [p \in {q \in DOMAIN E : q[1] \in keep} |-> E[p]]
-       /\ EB' = [x \in DOMAIN EB |-> [EB[x] EXCEPT !.alive = @ /\ x \in gc.mk.b]]
-       /\ MB' = [m \in DOMAIN MB |-> [MB[m] EXCEPT !.box = @ /\ m \in gc.mk.m, !.wkalive = @ /\ m \in gc.mk.w]]
+       /\ EB' = [x \in DOMAIN EB |-> IF x \in gc.mk.b THEN EB[x] ELSE [EB[x] EXCEPT !.alive = FALSE, !.rc = 0]]
+       /\ MB' = [m \in DOMAIN MB |-> [MB[m] EXCEPT !.box = @ /\ m \in gc.mk.m, !.rc = IF m \in gc.mk.m THEN @ ELSE 0,
+                                                    !.wkalive = @ /\ m \in gc.mk.w]]
        /\ gc' = [gc EXCEPT !.phase = "clearwm", !.dlog = Sorted(nodes \ keep), !.mk = NoMarks,
                            !.nrcN = <<>>, !.nrcB = <<>>, !.nrcM = <<>>]
   /\ UNCHANGED <<nalloc, snap, obs, ist>>
